@@ -150,11 +150,11 @@ def run(ctx):
                 ctx.ob('RANGE', f'[{tag}] column slice {nm} lies in [0, fchans] (a negative bound would wrap around)', fi,
                        lower_ok(b) and upper_ok(b, F), {'bound': pretty(b), '>=0': lower_ok(b), '<=fchans': upper_ok(b, F)},
                        node=ds[0].node, construct=ds[0].text() + f' [{nm}]')
-            rf = [e for e in I.events if e.kind == 'store' and e.data.get('name') == 'restricted_fs' and e.func.short == fi.short]
-            ctx.require(rf, 'add_signal: restricted_fs not found')
+            rf = [e for e in I.events if e.kind == 'call' and e.data.get('name') == 'numpy.meshgrid' and e.func.short == fi.short]
+            ctx.require(rf, 'add_signal: the frequency/time mesh (np.meshgrid) was not found')
             want = ctx.spec(fi, 'self.fs[LO:HI]', env={'LO': lo, 'HI': hi})
-            ctx.formula('AGREE', f'[{tag}] the frequencies evaluated are those of the written columns', fi, rf[0].data['value'], want,
-                        node=rf[0].node)
+            ctx.formula('AGREE', f'[{tag}] the frequencies evaluated are those of the written columns', fi, rf[0].data['args'][0], want,
+                        node=rf[0].node, construct='np.meshgrid(<frequencies>, ...)')
             # with frequency sub-sampling the grid must still be anchored on (and span) exactly the written columns
             r2, I2 = ctx.run(fi, args={'bounding_f_range': sym('BFR') if bounded else NONE, 'bp_profile': NONE,
                                        'integrate_path': FALSE, 'integrate_t_profile': FALSE, 'integrate_f_profile': TRUE,
